@@ -1,32 +1,61 @@
-import json, os
+import json, os, sys
 import vlib, apidrive
 
 ASSUME = [
     'tier 2 (this check): a real single-node network (real hashicorp/raft with in-memory transport, real FSM, real LevelDB raftlog/irclog, FileSnapshotStore, real HTTP handlers) runs in a child process; SIGKILL is delivered between operations and, for the post-then-kill operation, while a POST is in flight',
     'a POST that was not answered before the kill is unacknowledged: it may be part of the history or not, but never twice; the bridge retries with the same client message id',
     '"all nodes deliver the same sequence" is checked as: the stream served after a fault extends the stream served before it (the node before and after the crash are two servers of the same log)',
-    'NOT covered (stated limit of this family): a three-node network of real binaries (real time, TLS listeners, election timing) cannot be enumerated exhaustively; raft consensus (leader election, log matching) is trusted; leader fail-over is represented by restart = replay of the durable log / snapshot restore, as in C10',
+    'fresh-network tier (TestVerifC05Fresh): a brand-new network without any history: all sequences of the same depth over {POST /session, POST /config, snapshot, SIGKILL+restart, graceful restart}; every acknowledged session must still exist and the acknowledged config revision must be in force after every operation, and the newest session posts at the end (short histories: the snapshot sees zero, one or two entries)',
+    'network tier (TestVerifC05Net, harness/localnet): three REAL robustirc binaries started by the repository\'s own launcher (internal/localnet: TLS listeners, rafthttp transport, main()\'s bootstrap and join code, real timers) on loopback; all sequences of depth 2 (quick) / 4 (thorough) over {post, retry, SIGKILL leader, SIGKILL a follower, restart the dead nodes, forced snapshot on every node, SIGKILL all + restart all}, each framed by a post before and after; after every operation EVERY live node serves the reader\'s complete stream up to a marker: acknowledged messages exactly once in post order, the same sequence on all nodes, each node\'s stream extends what it served before',
+    'limit of the network tier: fault SEQUENCES are enumerated exhaustively, the timing inside an operation (which instant of an election or replication a kill hits) is whatever the run produces, not enumerated; at most one node is dead at a time (except crash-all); raft consensus itself is trusted; a wait that exceeds its bound (60-90 s) makes the run inconclusive (exhaustive:false, exit 0), never a violation',
 ]
-RULE = ('all sequences of the given depth over {postA, postB, retryA, snapshot, SIGKILL+restart, graceful restart, post-then-SIGKILL}; after every operation both sessions read their whole stream through the real GET handler: '
+RULE = ('single-node tier: all sequences of the given depth over {postA, postB, retryA, snapshot, SIGKILL+restart, graceful restart, post-then-SIGKILL}; after every operation both sessions read their whole stream through the real GET handler: '
         'acknowledged messages exactly once in post order, unacknowledged at most once, stream after a fault extends the stream before; at the end no client message id twice in the durable log')
+
+def build_net():
+    """The network tier runs the repository's own launcher (internal/localnet) against a real robustirc binary."""
+    import subprocess
+    ov = vlib.make_overlay('c05net', harness=['localnet'])
+    tb = vlib.build_test('./internal/localnet', os.path.join(vlib.BUILD, 'c05net.test'), ov)
+    bindir = os.path.join(vlib.BUILD, 'bin')
+    os.makedirs(bindir, exist_ok=True)
+    p = subprocess.run(['go', 'build', '-o', os.path.join(bindir, 'robustirc'), '.'], cwd=vlib.REPO, env=vlib.GOENV, stdout=subprocess.PIPE, stderr=subprocess.STDOUT, text=True)
+    if p.returncode != 0:
+        sys.stderr.write(p.stdout)
+        raise SystemExit('HARNESS-BUILD-FAILED: go build of the robustirc binary (exit %d)' % p.returncode)
+    return tb, bindir
 
 def prebuild():
     apidrive.build()
+    build_net()
 
 def run(tier):
-    apidrive.run_seq('C05', tier, 'TestVerifC05', ASSUME, RULE, level='fault_enumeration')
+    import time
+    t0 = time.time()
+    # child processes: give the tiers room on a loaded machine (a cap that is hit ends the run with exhaustive:false, exit 0)
+    os.environ.setdefault('VERIF_BUDGET_S', '420' if tier == 'quick' else '3600')
+    budget = float(os.environ['VERIF_BUDGET_S'])
+    # network tier: three real binaries per sequence; mostly waiting (elections), so more workers than cores are fine
+    tb, bindir = build_net()
+    env = {'VERIF_TIER': tier, 'PATH': bindir + os.pathsep + os.environ.get('PATH', ''), 'VERIF_DEADLINE': str(int(t0 + budget * 0.6)), 'GOMAXPROCS': '2'}
+    rn = vlib.run_workers(tb, 'TestVerifC05Net', 24, env=env)
+    net = {'sequences': sum(r.get('sequences', 0) for r in rn), 'operations': sum(r.get('ops', 0) for r in rn), 'depth': rn[0].get('depth'),
+           'sigkills': sum(r.get('kills', 0) for r in rn), 'restarts': sum(r.get('restarts', 0) for r in rn), 'snapshots': sum(r.get('snapshots', 0) for r in rn),
+           'leader_changes': sum(r.get('leader_changes', 0) for r in rn), 'streams_read': sum(r.get('streams_read', 0) for r in rn),
+           'inconclusive': sorted(set(r['harness_error'] for r in rn if r.get('harness_error')))[:3]}
+    apidrive.run_seq('C05', tier, ['TestVerifC05', 'TestVerifC05Fresh'], ASSUME, RULE, level='fault_enumeration', pre_results=rn, extra_cov={'network_tier': net}, t0=t0)
 
 def replay(path):
     import subprocess
     b = apidrive.build(); sd = vlib.scratch_dir(); o = os.path.join(sd, 'c05r.json')
     env = dict(os.environ); env.update({'VERIF_REPLAY': path, 'VERIF_OUT': o, 'TMPDIR': sd})
-    subprocess.run([b, '-test.run', '^TestVerifC05$', '-test.timeout', '0'], env=env, cwd=sd, stdout=subprocess.DEVNULL, stderr=subprocess.DEVNULL)
+    subprocess.run([b, '-test.run', '^TestVerifC05Fresh$' if (json.load(open(path)).get('seq') or [''])[0] == 'fresh' else '^TestVerifC05$', '-test.timeout', '0'], env=env, cwd=sd, stdout=subprocess.DEVNULL, stderr=subprocess.DEVNULL)
     r = json.load(open(o)); print(json.dumps(r.get('violations')))
     if r.get('violations'):
         print('VIOLATION property=C05 replay=%s' % path); return 1
     return 0
 
-MANIFEST = dict(engine='api-seq + child processes', level='fault_enumeration',
-  technique='exhaustive enumeration of fault/operation sequences (depth 4/5) against a real single-node network running in a child process that is SIGKILLed and restarted; oracle on the streams served by the real GET handler before and after every fault',
-  text='Every sequence of posts, retries, forced snapshots, SIGKILL+restart, graceful restart and post-then-SIGKILL up to the depth bound is executed against real raft + real stores + real handlers in a child process; after every operation every session reads its complete stream: acknowledged messages exactly once and in post order, unacknowledged at most once, and the stream after a fault must extend the stream served before it.',
-  note='Single node; the multi-process three-node part of the property is outside what bounded exhaustive exploration can decide and is stated as not covered; raft consensus trusted.')
+MANIFEST = dict(engine='api-seq + child processes + network of real binaries', level='fault_enumeration',
+  technique='exhaustive enumeration of fault/operation sequences: (1) depth 4/5 against a real single-node network in a child process that is SIGKILLed and restarted, (2) depth 4/5 on a brand-new network (first session/config, snapshot, kill), (3) depth 2/4 against a three-node network of real robustirc binaries (SIGKILL leader/follower/all, restart, forced snapshots); oracle on the streams served by the real GET handler of every live node after every operation',
+  text='Every sequence of posts, retries, forced snapshots, SIGKILL+restart, graceful restart and post-then-SIGKILL up to the depth bound is executed against real raft + real stores + real handlers in a child process; every sequence of leader/follower/all-node SIGKILLs, restarts, snapshots, posts and retries up to the bound is executed against three real binaries on loopback. After every operation every session reads its complete stream (from every live node): acknowledged messages exactly once and in post order, unacknowledged at most once, the same sequence on all nodes, and the stream after a fault must extend the stream served before it.',
+  note='In the three-node tier the fault sequences are enumerated, the timing inside an operation (where in an election or replication a kill lands) is not; raft consensus trusted; waits that exceed their bound make the run inconclusive (exhaustive:false), never a violation.')
